@@ -130,15 +130,18 @@ class TU:
         self.timing['native%s_s' % ('_san' if sanitize else '')] = round(dt, 2)
         return exe
 
-    def build_translated_native(self):
-        if os.path.exists(self.trans):
-            return self.trans
-        rc, out, err, dt = run(['gcc', '-O1', '-w', '-DVF_TRANSLATED', '-I' + os.path.join(VERIF, 'rt'), self.c,
-                                os.path.join(VERIF, 'rt', 'native_rt.c'), '-o', self.trans])
+    def build_translated_native(self, discipline=False):
+        """gcc build of the generated C. discipline=True (only for TUs built with -DVF_DISCIPLINE) keeps the lock-discipline obligation
+        as an address-range check: used to confirm counterexamples; translator validation runs without it."""
+        exe = self.trans + ('_disc' if discipline else '')
+        if os.path.exists(exe):
+            return exe
+        rc, out, err, dt = run(['gcc', '-O1', '-w', '-DVF_TRANSLATED'] + (['-DVF_DISCIPLINE'] if discipline else []) + ['-I' + os.path.join(VERIF, 'rt'), self.c,
+                                os.path.join(VERIF, 'rt', 'native_rt.c'), '-o', exe])
         if rc != 0:
             raise BuildError('gcc build of translated C failed:\n' + err[-4000:])
         self.timing['trans_native_s'] = round(dt, 2)
-        return self.trans
+        return exe
 
     @staticmethod
     def write_replay(path, choices, nd):
